@@ -73,6 +73,71 @@ def run(prog: Program, rep, tier: str) -> None:
 
     # --- rule 6: evaluator completeness -----------------------------------------------------------
     evaluators(prog, rep)
+    wrappers_keep_nonfinite(prog, rep)
+
+
+def _nan_truth(e: ast.AST):
+    """truth value of an element-wise mask on an entry that is NaN (True / False), or None when not determined"""
+    if isinstance(e, ast.Compare) and len(e.ops) == 1:
+        return True if isinstance(e.ops[0], ast.NotEq) else False        # every comparison with NaN is false except !=
+    if isinstance(e, ast.UnaryOp) and isinstance(e.op, (ast.Invert, ast.Not)):
+        v = _nan_truth(e.operand)
+        return None if v is None else (not v)
+    if isinstance(e, ast.BinOp) and isinstance(e.op, (ast.BitAnd, ast.BitOr)):
+        a, b = _nan_truth(e.left), _nan_truth(e.right)
+        if a is None or b is None:
+            return None
+        return (a and b) if isinstance(e.op, ast.BitAnd) else (a or b)
+    if isinstance(e, ast.Call):
+        d = (dotted(e.func) or "").split(".")[-1]
+        if d == "isfinite":
+            return False
+        if d in ("isnan",):
+            return True
+        if d == "logical_not" and e.args:
+            v = _nan_truth(e.args[0])
+            return None if v is None else (not v)
+        if d in ("logical_and", "logical_or") and len(e.args) == 2:
+            a, b = _nan_truth(e.args[0]), _nan_truth(e.args[1])
+            if a is None or b is None:
+                return None
+            return (a and b) if d == "logical_and" else (a or b)
+        if d in ("flatnonzero", "nonzero", "where") and len(e.args) == 1:
+            return _nan_truth(e.args[0])
+    if isinstance(e, ast.Subscript) and isinstance(e.slice, ast.Constant):
+        return _nan_truth(e.value)
+    return None
+
+
+def wrappers_keep_nonfinite(prog: Program, rep) -> None:
+    """The validating evaluator sits ABOVE the scaling / slack wrappers: it can only report a non-finite entry that the wrappers hand
+    on.  A wrapper that selects entries of a callback result by a test on their values (`data[np.abs(data) > 0]`, `isfinite`) drops
+    NaN entries - every comparison with NaN is false - and the trial point is then accepted as if the derivative were fine."""
+    n = 0
+    for q in ("pygradflow.scale.ScaledProblem", "pygradflow.cons_problem.ConstrainedProblem"):
+        ci = prog.cls(q)
+        for m in ci.methods.values():
+            ff = None
+            for node in own_nodes(m.node):
+                if not (isinstance(node, ast.Subscript) and isinstance(node.ctx, ast.Load)) or isinstance(node.slice, (ast.Slice, ast.Constant, ast.Tuple)):
+                    continue
+                ff = ff or facts_for(m)
+                si = ff.stmt_of(node)
+                if si is None:
+                    continue
+                sl = ff.resolved(si.stmt, node.slice)
+                txt = U(sl)
+                if "self.problem." not in txt or not any(isinstance(k, ast.Compare) or (isinstance(k, ast.Call) and (dotted(k.func) or "").endswith(("isfinite", "isnan"))) for k in ast.walk(sl)):
+                    continue
+                n += 1
+                keeps = _nan_truth(sl)
+                if keeps is False:
+                    rep.fail("wrappers-keep-nonfinite", m.qualname, short(si.stmt), f"VIOLATED: `{U(node)[:60]}` selects entries of a callback result by `{txt[:70]}`, which is false for NaN: "
+                             f"non-finite entries are dropped below the validating evaluator and the failing point is not discarded", m.loc(node))
+                else:
+                    rep.ok("wrappers-keep-nonfinite", m.short, f"`{U(node)[:50]}`: value-dependent selection that keeps NaN entries ({keeps})")
+    if n == 0:
+        rep.ok("wrappers-keep-nonfinite", "ScaledProblem / ConstrainedProblem", "no wrapper selects entries of a callback result by a test on their values")
 
 
 def containment(prog: Program, rep, x: ExcFlow) -> None:
